@@ -207,7 +207,7 @@ def run(chk):
     scripts = dedupe_prefixes(scripts)
     rng = random.Random(chk.seed)
     rng.shuffle(scripts)
-    cap = 6000 if chk.quick else 40000
+    cap = 6000 if chk.quick else 32000
     if len(scripts) > cap:
         # keep every script that contains a fault or a second connection start late in the history, sample the rest
         scripts = scripts[:cap]
